@@ -199,7 +199,7 @@ func runC12(c *Check) {
 	ruleHashDefs(c, p)
 	ruleDecoderGuards(c, p)
 	ruleGobTypes(c, p)
-	ruleVerifierBoundBeforeValidation(c, p)
+	ruleVerifierBoundBeforeValidation(c, p, "C12-R6")
 	ruleSubmessagePresence(c, p)
 	ruleDecodersOverwrite(c, p)
 	ruleDecodersAcceptEmptyEncoding(c, p)
@@ -211,8 +211,7 @@ func runC12(c *Check) {
 // header's signature is therefore preceded, since the header was obtained, by binding the
 // manager's provider to that very header. A function that validates one of its own parameters
 // hands the obligation to its callers.
-func ruleVerifierBoundBeforeValidation(c *Check, p *Prog) {
-	rule := "C12-R6"
+func ruleVerifierBoundBeforeValidation(c *Check, p *Prog, rule string) {
 	c.Doc(rule, "EO+VP: in the block package every signature validation of a header is preceded, on all paths since the header was obtained, by SetCustomVerifier(manager's provider) on the same header (the provider is carried by no codec).")
 	shT := "*" + rootPath + "/types.SignedHeader"
 	isHeader := func(v ssa.Value) bool { return v.Type().String() == shT }
